@@ -253,9 +253,15 @@ def run(ctx: Ctx):
             ctx.count("export_" + ("ok" if want.startswith("ok") else want.split(":")[1]))
     # e2e
     jobs, ecases = [], []
-    nsc = ctx.n(5, 150)
+    nsc = ctx.n(9, 150)
+    dom = list(DOMAIN_OPTS)
+    rng.shuffle(dom)
     for s in range(nsc):
         spec = rich.random_spec(rng)
+        if s == 3:
+            spec.update(sub_ns=True, bad_dur=True, short=True, meta=True, near_wrap=True)
+        if s == 4:
+            spec.update(layout="subdirs", kernels=0)
         if s == 0:
             spec["overlap_depth"] = 5          # exactly the documented lane budget
         if s == 1:
@@ -267,7 +273,8 @@ def run(ctx: Ctx):
         for _ in range(ctx.n(6, 20)):
             a, b = rng.sample(DOMAIN_OPTS, 2)
             pairs.append(a + b)
-        osets = (rng.sample(singles, 5) + pairs[:4]) if ctx.quick() else singles + pairs
+        # quick: single options go round-robin over the scenarios (every one at least twice per check)
+        osets = ([[]] + [dom[(s * 3 + j) % len(dom)] for j in range(3)] + pairs[:4]) if ctx.quick() else singles + pairs
         if spec.get("stale") and ["--flow"] not in osets:
             osets = osets + [["--flow"]]
         for oi, o in enumerate(osets):
